@@ -25,6 +25,8 @@ BASELINE = None   # reports on the unpatched copy (subtracted: a finding of the 
 def run_seed(sid):
     d = os.path.join(HERE, 'seeded', sid)
     patch = None if sid == '<baseline>' else (sid if sid.endswith('.diff') else os.path.join(d, 'patch.diff'))
+    if patch and not sid.endswith('.diff') and os.path.exists(os.path.join(d, 'patch_rebased.diff')):
+        patch = os.path.join(d, 'patch_rebased.diff')   # same change carried over to the repaired tree
     tmp = tempfile.mkdtemp(prefix='lzlint-seed-')
     cache = tempfile.mkdtemp(prefix='lzlint-seedcache-')
     reports = []
